@@ -635,7 +635,7 @@ func c15f(c *Ctx) {
 		return ok && fn.Name() == "Seal" && len(call.Args) == 4
 	}) {
 		sealCall = s.Call
-		sealAD = objOf(si, s.Call.Args[3])
+		sealAD = objOf(si, seal.copyRoot(s.Call.Args[3]))
 	}
 	for _, s := range open.Find(func(n ast.Node) bool {
 		call, ok := n.(*ast.CallExpr)
@@ -646,7 +646,7 @@ func c15f(c *Ctx) {
 		return ok && fn.Name() == "Open" && len(call.Args) == 4 && recvName(fn) != ""
 	}) {
 		openCall = s.Call
-		openAD = objOf(oi, s.Call.Args[3])
+		openAD = objOf(oi, open.copyRoot(s.Call.Args[3]))
 	}
 	if sealAD == nil || openAD == nil {
 		c.Unk("ticket associated data", "AEAD Seal/Open calls not found")
